@@ -6,8 +6,8 @@
    Section closes).  The OCaml driver passes OCaml's Digest (MD5); the theorems hold for every
    function.  HMAC-MD5 is defined here from it (RFC 2104, block size 64).
 
-   The model carries seven repair flags (true = repaired behaviour).  Five of them describe fixes that are
-   committed in /repo (7e62e2a, db29b2a, 331235d, 6f22cf3, 3a9d01d); their [false] branches are kept only for the historical
+   The model carries seven repair flags (true = repaired behaviour).  Six of them describe fixes that are
+   committed in /repo (7e62e2a, db29b2a, 331235d, 6f22cf3, 3a9d01d, 2b1fb34); their [false] branches are kept only for the historical
    [_refuted] witnesses in Properties.v and are not used by the correspondence check:
      f_reply    transport.go readLoop verifies Response Authenticator + Message-Authenticator
      f_coaauth  coa.go verifies the Request Authenticator, computes the request MA per RFC 5176
@@ -15,12 +15,12 @@
      f_dmwin    the Event-Timestamp replay window also applies to Disconnect-Request
      f_white    a CoA whose attribute delta leaves the documented mutable set is NAKed (401)
      f_dedup    an authenticated request is executed once; a byte-identical copy gets the cached reply (3a9d01d)
-   Two describe findings recorded as known (not fixed in /repo):
+   One describes the finding still recorded as known (not fixed in /repo):
      f_tsreq    while the replay window is enabled a request without a usable Event-Timestamp is discarded
                 (coa-without-event-timestamp-bypasses-window)
-     f_ttl      a duplicate-cache entry outlives the replay window of its request: lifetime 2*window + 1 s instead
-                of 2*window (coa-duplicate-cache-expires-inside-window)
-   [repaired] = all true (full theorems); [head] = /repo HEAD = all true except f_tsreq and f_ttl. *)
+   and, among the fixed ones, f_ttl: a duplicate-cache entry outlives the replay window of its request (lifetime
+   2*window + 1 s instead of 2*window, 2b1fb34).
+   [repaired] = all true (full theorems); [head] = /repo HEAD = all true except f_tsreq. *)
 From Coq Require Import String Ascii.
 From OV Require Import Common.Base.
 Import ListNotations.
@@ -31,13 +31,12 @@ Definition bytes := list N.
 
 Record flags := { f_reply : bool; f_coaauth : bool; f_dmwin : bool; f_white : bool; f_tsreq : bool; f_dedup : bool; f_ttl : bool }.
 Definition repaired : flags := {| f_reply := true; f_coaauth := true; f_dmwin := true; f_white := true; f_tsreq := true; f_dedup := true; f_ttl := true |}.
-(* what /repo HEAD implements after the five C08 fix commits: everything but the Event-Timestamp requirement *)
-Definition head : flags := {| f_reply := true; f_coaauth := true; f_dmwin := true; f_white := true; f_tsreq := false; f_dedup := true; f_ttl := false |}.
-(* HEAD with exactly one of the two recorded findings (attribution of a mismatch to one finding) *)
-Definition head_nots : flags := {| f_reply := true; f_coaauth := true; f_dmwin := true; f_white := true; f_tsreq := false; f_dedup := true; f_ttl := true |}.
-Definition head_nottl : flags := {| f_reply := true; f_coaauth := true; f_dmwin := true; f_white := true; f_tsreq := true; f_dedup := true; f_ttl := false |}.
-(* the listener before commit 3a9d01d (no duplicate detection), everything else as on HEAD: historical witnesses only *)
+(* what /repo HEAD implements after the six C08 fix commits: everything but the Event-Timestamp requirement *)
+Definition head : flags := {| f_reply := true; f_coaauth := true; f_dmwin := true; f_white := true; f_tsreq := false; f_dedup := true; f_ttl := true |}.
+(* the listener before commit 3a9d01d (no duplicate detection) and before commit 2b1fb34 (cache lifetime exactly 2*window),
+   everything else as on HEAD: historical witnesses only *)
 Definition pre_dedup : flags := {| f_reply := true; f_coaauth := true; f_dmwin := true; f_white := true; f_tsreq := false; f_dedup := false; f_ttl := false |}.
+Definition pre_ttl : flags := {| f_reply := true; f_coaauth := true; f_dmwin := true; f_white := true; f_tsreq := false; f_dedup := true; f_ttl := false |}.
 Definition defective : flags := {| f_reply := false; f_coaauth := false; f_dmwin := false; f_white := false; f_tsreq := false; f_dedup := false; f_ttl := false |}.
 
 (* ------------------------------------------------------------------ byte helpers *)
